@@ -1,4 +1,5 @@
 import Qryn.LogQL.Planner
+import Qryn.Gen.C07Analyze
 /-! The SQL-side pipeline stages of a LogQL log query beyond `LogQL.Planner`: `| json l="path", …`,
     `| regexp "…"`, `| drop …`, and label / line filters placed after them.
 
@@ -58,10 +59,75 @@ def sqlPrefix : List ScriptStage → List StageX
 def finalizes (ss : List ScriptStage) : Bool := ss.all (fun s => !s.breaks)
 
 /-! ### analyze.go -/
-/-- stages before the first label-rewriting one, and the rest (`labelsJoinIdx` = length of the first part) -/
+/-- the specification's view of a pipeline (used by `LogQL.SemX`, not by the plan): the filters before the first
+    label-rewriting stage — they can only see the labels the stream was stored with — and the rest -/
 def splitPre : List StageX → List Stage × List StageX
   | .fl s :: rest => ((splitPre rest).1 |> (s :: ·), (splitPre rest).2)
   | rest => ([], rest)
+
+/-- the field of `logql_parser.StrSelectorPipeline` that is set for a stage of the fragment -/
+def StageX.kind : StageX → String
+  | .fl (.line _) => "LineFilter"
+  | .fl (.label _) => "LabelFilter"
+  | .ch (.json _) => "Parser"
+  | .ch (.regexp _ _) => "Parser"
+  | .ch (.drop _) => "Drop"
+
+/-- `analyzeScript`, first loop, the two tests (tables regenerated from analyze.go: `Gen.C07Analyze`): the stage is
+    marked as decidable on the stored labels / the loop ends after it. Both look at the KIND of the stage only — a
+    label filter is marked whatever its shape (comparison, and/or chain, parenthesised group). -/
+def marksSimple (s : StageX) : Bool := Gen.C07Analyze.pushdownMarks.contains s.kind
+def stopsPushdown (s : StageX) : Bool := Gen.C07Analyze.pushdownStops.contains s.kind
+
+/-- `p.simpleLabelOperation`: `for i, ppl := range pipeline { if <mark> { simple[i] = true }; if <stop> { break } }` -/
+def simpleOps : List StageX → List Bool
+  | [] => []
+  | s :: rest => marksSimple s :: (if stopsPushdown s then rest.map (fun _ => false) else simpleOps rest)
+
+/-- one test of the second loop of `analyzeScript` -/
+def joinsAt (s : StageX) (simple : Bool) : Bool :=
+  Gen.C07Analyze.joinAt.any (fun t => t.1 == s.kind && (!t.2 || !simple))
+
+/-- `p.labelsJoinIdx` (`none` = −1): the first stage that needs the labels column -/
+def labelsJoinIdx (ss : List StageX) : Option Nat :=
+  (ss.zip (simpleOps ss)).findIdx? (fun p => joinsAt p.1 p.2)
+
+/-- the `plan*` method `planSpl` dispatches the stage to plans nothing when the stage is marked -/
+def skippedWhenSimple (s : StageX) : Bool :=
+  match Gen.C07Analyze.dispatch.lookup s.kind with
+  | some m => Gen.C07Analyze.skipsWhenSimple.contains m
+  | none => false
+
+def flOf : StageX → Option Stage
+  | .fl s => some s
+  | .ch _ => none
+
+/-- what `planTS` / `planSpl` do with the analysis -/
+structure Analysis where
+  pushed : List LabelCond    -- `planTS`: the marked label filters, in pipeline order, wrap the fingerprint selection
+  pre : List Stage           -- the stages before `labelsJoinIdx`: planned on `main` (marked ones: nothing is planned)
+  post : List StageX         -- from `labelsJoinIdx` on: planned on the join with the labels, marked ones skipped
+
+/-- `planTS`: `if !isSimpleLabelFilter { continue }; if ppl.LabelFilter != nil { wrap }` -/
+def pushedOf : StageX × Bool → Option LabelCond
+  | (.fl (.label lc), true) => if Gen.C07Analyze.tsWraps == "LabelFilter" then some lc else none
+  | _ => none
+
+/-- `planSpl` from `labelsJoinIdx` on: a marked stage whose `plan*` method returns at once leaves nothing in the request -/
+def keptOf (p : StageX × Bool) : Bool := !(p.2 && skippedWhenSimple p.1)
+
+def analyze (ss : List StageX) : Analysis :=
+  let t := ss.zip (simpleOps ss)
+  let j := (labelsJoinIdx ss).getD ss.length
+  { pushed := t.filterMap pushedOf
+    pre := (ss.take j).filterMap flOf
+    post := ((t.drop j).filter keptOf).map (·.1) }
+
+/-- the label-rewriting stages of a pipeline, in order -/
+def changersOf : List StageX → List Changer
+  | [] => []
+  | .ch c :: rest => c :: changersOf rest
+  | .fl _ :: rest => changersOf rest
 
 inductive Run
   | ch (cs : List Changer)
@@ -150,11 +216,10 @@ def limCtx (c : Ctx) (fin : Bool) : Ctx := { c with limit := if fin then c.limit
 
 /-- **the plan** of `clickhouse_planner.Plan(script, fin)` → `Process` for the SQL-side stages -/
 def planLogX (c : Ctx) (fin : Bool) (q : LogQueryX) : Sel :=
-  let pre := (splitPre q.stages).1
-  let post := (splitPre q.stages).2
-  let q0 : LogQuery := ⟨q.matchers, pre⟩
-  let chain := fpChain c (streamSelect c q.matchers) 0 (labelConds q0)
-  match post with
+  let a := analyze q.stages
+  let q0 : LogQuery := ⟨q.matchers, a.pre⟩
+  let chain := fpChain c (streamSelect c q.matchers) 0 a.pushed
+  match a.post with
   | [] =>
     .mk (chain ++ [(.named "main", mainSel (limCtx c fin) q0), (.named "_time_series", timeSeriesSel c),
                    (.named "prefinal", joinedSel c)])
@@ -163,7 +228,7 @@ def planLogX (c : Ctx) (fin : Bool) (q : LogQueryX) : Sel :=
     .mk (chain ++ [(.named "main", mainSel { c with limit := 0 } q0), (.named "_time_series", timeSeriesSel c)] ++
           planRuns c [.orderBy (.raw "timestamp_ns") (dirOf c)]
             (if (limCtx c fin).limit = 0 then none else some (.int (limCtx c fin).limit))
-            none ((labelConds q0).length + 1) 1 (groupRuns post))
+            none (a.pushed.length + 1) 1 (groupRuns a.post))
       false finalCols (some (.withRef (.named "prefinal"))) [] none none [] none (finalOrder c fin) none
 
 /-- what `logql_transpiler_v2.Plan` sends to ClickHouse for a script -/
